@@ -200,3 +200,70 @@ func diffKey(d string) string {
 	}
 	return d
 }
+
+// observe performs a few read-only operations on a (possibly half-built)
+// packet, the way a program logs or transmits a packet and then goes on
+// using it. Panics are left to C19.
+func observe(r *gen.RNG, p mq.Packet) {
+	mon.Guard(func() {
+		for k := 1 + r.Intn(3); k > 0; k-- {
+			switch r.Intn(5) {
+			case 0:
+				_ = p.String()
+			case 1:
+				var sink bytes.Buffer
+				p.WriteTo(&sink)
+			case 2:
+				var sink bytes.Buffer
+				mq.Dump(&sink, p)
+			case 3:
+				if wf, ok := p.(mq.HasWellFormed); ok {
+					_ = wf.WellFormed()
+				}
+			case 4:
+				_ = bind.Snapshot(p)
+			}
+		}
+	})
+}
+
+// buildMaybeStaged builds a either in one go or — one case in three — in two
+// stages with read-only operations on the half-built packet in between
+// (cached widths and the like only show that way).
+func buildMaybeStaged(r *gen.RNG, a *ref.Packet) (mq.Packet, error, string) {
+	if len(a.Props) > 0 && r.Chance(1, 3) {
+		p, err := bind.BuildStaged(a, r.Intn(len(a.Props)), func(p mq.Packet) { observe(r, p) })
+		return p, err, "staged"
+	}
+	p, err := bind.Build(a)
+	return p, err, "direct"
+}
+
+var altProtoNames = []string{"mqtt", "MQ", "M", "abcd", "MQIsdp"}
+
+// noise does what a long-running program does between two packets: it
+// decodes some unrelated frame, into a fresh NewX() value or through
+// ReadPacket. A library whose packets share hidden state (package-level
+// defaults, pooled buffers) lets that leak into the packet built next. The
+// noise is part of the case, so a replay reproduces it.
+func noise(r *gen.RNG) {
+	t := gen.AllTypes[r.Intn(len(gen.AllTypes))]
+	if r.Chance(1, 2) {
+		t = ref.TConnect
+	}
+	a := gen.Packet(r, t, gen.RandomMask(r, t), gen.Small, gen.Domain{})
+	if t == ref.TConnect && r.Chance(3, 4) {
+		a.ProtoName = altProtoNames[r.Intn(len(altProtoNames))]
+		a.ProtoVer = gen.Pick[byte](r, 4, 5, 3)
+	}
+	f, _ := ref.Encode(a)
+	h, _ := ref.ParseHeader(f)
+	mon.Guard(func() {
+		if r.Bool() {
+			p := bind.New(t)
+			p.UnmarshalBinary(f[h.HdrLen:])
+		} else {
+			mq.ReadPacket(bytes.NewReader(f))
+		}
+	})
+}
